@@ -565,17 +565,16 @@ theorem argBest_eq_none (h : σ → α) (q : List σ) (hn : argBest h q = none) 
   | cons x xs => simp [argBest] at hn
 
 /-- `OrderedInfSampler` (fixed): a true return gives a state whose cost is below the bound and that
-was produced by a SUCCESSFUL wrapped call of one of the batches; the queue is the successful part
-of that batch. -/
+was produced by a SUCCESSFUL wrapped call of one of the batches (in fact the first); the queue is the
+successful part of that batch. -/
 theorem ordered_success_sound (h : σ → α) (c : α) :
     ∀ (bs : List (List (Wrapped σ))) (t : σ) (q : List σ),
       orderedSample h c bs = .found t q →
       h t < c ∧ ∃ b ∈ bs, q = (b.filter (·.1)).map (·.2) ∧ ∃ w ∈ b, w.1 = true ∧ w.2 = t := by
-  intro bs
-  induction bs with
-  | nil => intro t q hs; simp [orderedSample] at hs
-  | cons b bs ih =>
-    intro t q hs
+  intro bs t q hs
+  cases bs with
+  | nil => simp [orderedSample] at hs
+  | cons b bs =>
     rw [orderedSample] at hs
     split at hs
     · cases hs
@@ -589,8 +588,7 @@ theorem ordered_success_sound (h : σ → α) (c : α) :
         obtain ⟨w, hw, e⟩ := List.mem_map.1 this
         obtain ⟨hwb, hflag⟩ := List.mem_filter.1 hw
         exact ⟨w, hwb, hflag, e⟩
-      · obtain ⟨hlt, b', hb', hq, hw⟩ := ih t q hs
-        exact ⟨hlt, b', List.mem_cons_of_mem _ hb', hq, hw⟩
+      · cases hs
 
 /-- Hence whatever the successful wrapped calls guarantee (`good`) holds of a returned sample. -/
 theorem ordered_success_good (h : σ → α) (c : α) (good : σ → Prop)
@@ -599,19 +597,22 @@ theorem ordered_success_good (h : σ → α) (c : α) (good : σ → Prop)
   obtain ⟨hlt, b, hb, _, w, hwb, hflag, e⟩ := ordered_success_sound h c bs t q hs
   exact ⟨e ▸ hw b hb w hwb hflag, hlt⟩
 
-/-- the fixed wrapper returns false only when a whole batch of wrapped calls failed -/
-theorem ordered_failed_batch (h : σ → α) (c : α) :
-    ∀ (bs : List (List (Wrapped σ))), orderedSample h c bs = .failed →
-      ∃ b ∈ bs, ∀ w ∈ b, w.1 = false := by
-  intro bs
-  induction bs with
-  | nil => intro hs; simp [orderedSample] at hs
-  | cons b bs ih =>
-    intro hs
+/-- the fixed wrapper returns false only when the whole batch of wrapped calls failed, or when the
+best of the batch drawn for this bound is not below it -/
+theorem ordered_failed_batch (h : σ → α) (c : α) (bs : List (List (Wrapped σ)))
+    (hs : orderedSample h c bs = .failed) :
+    ∃ b, bs.head? = some b ∧
+      ((∀ w ∈ b, w.1 = false) ∨
+        ∃ t, argBest h ((b.filter (·.1)).map (·.2)) = some t ∧ ¬ h t < c) := by
+  cases bs with
+  | nil => simp [orderedSample] at hs
+  | cons b bs =>
+    refine ⟨b, rfl, ?_⟩
     rw [orderedSample] at hs
     split at hs
     · rename_i hnone
-      refine ⟨b, List.mem_cons_self, fun w hw => ?_⟩
+      left
+      intro w hw
       have hq := argBest_eq_none h _ hnone
       have hfil : b.filter (·.1) = [] := List.map_eq_nil_iff.1 hq
       cases hflag : w.1 with
@@ -620,10 +621,27 @@ theorem ordered_failed_batch (h : σ → α) (c : α) :
         have : w ∈ b.filter (·.1) := List.mem_filter.2 ⟨hw, hflag⟩
         rw [hfil] at this
         cases this
-    · split at hs
+    · rename_i t hbest
+      split at hs
       · cases hs
-      · obtain ⟨b', hb', hall⟩ := ih hs
-        exact ⟨b', List.mem_cons_of_mem _ hb', hall⟩
+      · rename_i hnlt
+        exact Or.inr ⟨t, hbest, hnlt⟩
+
+/-- Witness for the loop BEFORE the `freshBatch` fix: on a stream of batches none of which beats the
+bound the old loop never returns, whatever the number of supplied batches. -/
+theorem ordered_old_loops (h : σ → α) (c : α) (t : σ) (ht : ¬ h t < c) :
+    ∀ n : Nat, orderedSampleLoop h c (List.replicate n [(true, t)]) = .starved := by
+  intro n
+  induction n with
+  | zero => rfl
+  | succ n ih =>
+    rw [List.replicate_succ, orderedSampleLoop]
+    simp [argBest, ht, ih]
+
+/-- Contrast (after the fix): the first such batch makes the wrapper return false. -/
+theorem ordered_new_returns_false (h : σ → α) (c : α) (t : σ) (ht : ¬ h t < c)
+    (bs : List (List (Wrapped σ))) : orderedSample h c ([(true, t)] :: bs) = .failed := by
+  simp [orderedSample, argBest, ht]
 
 /-- `OrderedInfSampler` BEFORE the fix: the returned state has cost below the bound and is the state
 left by SOME wrapped call of one of the batches (whatever flag that call returned). -/
